@@ -1,10 +1,10 @@
 SPECIFICATION Spec
 CONSTANTS
   Dev = {}
-  NSamp = 2
-  MaxLen = 2
-  WithSnp = TRUE
+  NSamp = 3
+  MaxLen = 4
+  WithSnp = FALSE
   EmitReplay = TRUE
-  KK = 5
+  KK = 11
 INVARIANTS Traversal
 CHECK_DEADLOCK FALSE
